@@ -5,7 +5,9 @@ EXTENDS Naturals, Sequences, TLC, Json
 Formats == {"csv", "json"}
 Targets == {"path", "zip"}
 Counters == {"default", "renamed", "dotted", "nohash", "nobytes", "norows", "nototal", "nestedhash"}
-Incoming == {"fresh", "second_dumper", "redump_loaded", "package_totals"}    \* package_totals: the package descriptor arrives with totals of its own
+Incoming == {"fresh", "second_dumper", "redump_loaded", "package_totals", "same_dir_again"}
+   \* package_totals: the package descriptor arrives with totals of its own
+   \* same_dir_again: the target directory / zip already holds an earlier dump of OTHER rows made with the same options
 Shapes == {<<2>>, <<0>>, <<2, 1, 0>>, <<3, 3>>}
 Texts == {"ascii", "multibyte"}
 
